@@ -34,6 +34,11 @@ var dumpStrings = []string{"", "a", "abc", "测试", "x y", "a/b", "é😀", "ke
 var dumpFloats = []float64{0, 1, -1, 0.5, 1.5, 0.1, 1e-9, -1e-9, 123456.789, 1e15, -1e15, 3.141592653589793, 1e6, 255.255, 0.30000000000000004}
 
 func genDumpScalar(t *rapid.T, facts *dumpFacts) (desc.T, desc.V) {
+	ty, v := genDumpScalar0(t, facts)
+	return maybeNamed(t, ty), v
+}
+
+func genDumpScalar0(t *rapid.T, facts *dumpFacts) (desc.T, desc.V) {
 	k := rapid.SampledFrom([]string{"string", "string", "bool", "int", "int8", "int16", "int32", "int64", "uint", "uint8", "uint16", "uint32", "uint64", "float32", "float64"}).Draw(t, "kind")
 	switch {
 	case k == "string":
